@@ -18,7 +18,7 @@ func init() {
 		ID:          "C09",
 		Explanation: "Decided: (id) no type display string (.string) flows into a run-time table key, Map key or keyFor result — tables about types are keyed by identity; (canon) every canonicalising type constructor builds its memo key from all its parameters and from every identity-relevant record key (Go spec type identity); (match) $assertType compares name, pkg and typ of methods; (schema) the method/field records the compiler emits contain every key the prelude reads on them; (mname) every method name emitted as a property or lookup string is the mangled name; (emit) method lists split value/pointer receivers and cover all methods of the instantiated type; (equal) $equal/$interfaceIsEqual cover every object-represented comparable kind; LINK on the helpers involved. NOT decided: embedding/promotion results for arbitrary type graphs, receiver copying at run time.",
 		Assumptions: []string{"typ.id assigned by $newType is unique per run-time type object", "Go spec type identity rules are frozen in the checker as the required key tables"},
-		Rules:       []RuleFunc{ruleC09ID, ruleC09Canon, ruleC09Match, ruleC09Schema, ruleC09Provenance, ruleC09Mname, ruleC09Emit, ruleC09Equal, ruleL9, ruleTotal("C09.exh", 2, "translateExpr/SelectorKind", "translateExpr/CallSelectorKind"), ruleC09MethodSet, ruleStructComparable, ruleBlankFields, ruleOwnMethods, ruleOwnKeys, rulePromotePtr, ruleNamedLookThrough},
+		Rules:       []RuleFunc{ruleC09ID, ruleC09Canon, ruleC09Match, ruleC09Schema, ruleC09Provenance, ruleC09Mname, ruleC09Emit, ruleC09Equal, ruleL9, ruleTotal("C09.exh", 2, "translateExpr/SelectorKind", "translateExpr/CallSelectorKind"), ruleC09MethodSet, ruleStructComparable, ruleBlankFields, ruleOwnMethods, ruleOwnKeys, rulePromotePtr, ruleNamedLookThrough, ruleC09ReceiverClone, ruleC07ReceiverCopy},
 	})
 }
 
